@@ -9,6 +9,8 @@ From Verif Require Import Crash.Model Crash.ProofsStore Crash.ProofsInv Crash.Pr
    (Chain.Model and Crash.Model both define blk, summary, stored, ...) *)
 From Verif Require Chain.Model Chain.Proofs Chain.ProofsWalk Chain.Examples LogDB.Model LogDB.ProofsCanon LogDB.ProofsSync
   Crash.LogCrash Crash.ExamplesLog.
+(* the bridge to wp-bft's model (coq/Bft): qualified names as well (Bft.Tree and Crash.Model both define blk, b_id, ...) *)
+From Verif Require Compose.CrashBft Compose.CrashBftExamples.
 Import ListNotations.
 Open Scope N_scope.
 
@@ -327,6 +329,235 @@ Example history_not_trivial :
   map snd (tallies ex_cfg (run ex_cfg ex_s0 ex_hist)) = [4; 3; 2; 1].
 Proof. exact ex_run_facts. Qed.
 
+(* ================================================================ (* composition *) C13/C20 <-> C03/C04
+   The crash model (key-value write log, justified/committed flags of a round as DATA) and wp-bft's model (coq/Bft: block list,
+   vote tally from signers and COM bits, compressed ids) connected by a simulation (Compose/CrashBft.v).
+   Parameters of the bridge: the Bft configuration [bc] with the same epoch length; an id translation [tr] on a domain [D]
+   that keeps the block number and the order (hence injective; instance: CrashBft.tr_small / CrashBft.small, and what the C04
+   harness does when it compresses ids); signer [sg] and COM bit [cm] of a block id (data the crash model does not carry).
+   The coupling hypothesis (CrashBft.flags_ok / flags_are_tallies; per imported block CrashBft.blk_flags_ok inside blk_ok /
+   hist_ok): the flags the crash side carries ARE Bft.Model.compute_state's for that block over the stored blocks. *)
+Section Composition.
+Variable c : cfg.
+Variable bc : CrashBft.BM.cfg.
+Hypothesis HcL : CrashBft.BM.c_L bc = c_L c.
+Variable tr : N -> N.
+Variable D : N -> Prop.
+Hypothesis tr_num : forall a, D a -> CrashBft.BT.idnum (tr a) = num_of a.
+Hypothesis tr_lt : forall a b, D a -> D b -> (tr a <? tr b) = (a <? b).
+Variables (sg : N -> N) (cm : N -> bool) (master : N).
+
+Local Notation ablk := (CrashBft.ablk tr sg cm).
+Local Notation asum := (CrashBft.asum tr sg cm).
+Local Notation abs := (CrashBft.abs c tr sg cm master).
+Local Notation refines := (CrashBft.refines c tr D sg cm).
+Local Notation view := (CrashBft.view c tr D sg cm).
+Local Notation flags_ok := (CrashBft.flags_ok bc tr sg cm).
+Local Notation flags_are_tallies := (CrashBft.flags_are_tallies c bc tr sg cm master).
+Local Notation blk_ok := (CrashBft.blk_ok bc tr D sg cm).
+Local Notation hist_ok := (CrashBft.hist_ok c bc tr D sg cm).
+Local Notation sim := (CrashBft.sim c bc tr D sg cm).
+Local Notation bft_import_all := (CrashBft.BN.import_all bc true).
+
+(* the decision functions of the two models agree on related states: the parent-link walk with fuel and block_at on the
+   structural chain; computeState's quality; findCheckpointByQuality (the two sort.Search definitions differ only when the
+   fuel runs out, which it never does with the fuel both callers pass: bsearch_agree, pure arithmetic) *)
+Theorem ancestor_walk_is_block_at s R qs id n : view s R qs -> D id ->
+  option_map tr (anc s id n) = option_map CrashBft.BT.b_id (CrashBft.BT.block_at R (tr id) n).
+Proof. intros V. exact (CrashBft.anc_block_at c bc HcL tr D tr_num tr_lt sg cm master s R qs V id n). Qed.
+
+Theorem quality_of_is_compute_state s R qs id parent score just : view s R qs -> wf_cfg c -> D id -> D parent ->
+  (num_of id = 0 \/ (stored s parent = true /\ num_of parent + 1 = num_of id)) ->
+  just = CrashBft.BM.s_just (CrashBft.BM.compute_state bc R qs (CrashBft.ablk_of tr sg cm id parent score)) ->
+  quality_of c s parent (num_of id) just =
+  Some (CrashBft.BM.s_q (CrashBft.BM.compute_state bc R qs (CrashBft.ablk_of tr sg cm id parent score))).
+Proof. intros V Hc. exact (CrashBft.quality_agree c bc HcL tr D tr_num tr_lt sg cm master s R qs V Hc id parent score just). Qed.
+
+Theorem search_definitions_agree (f : N -> option bool) (g : N -> CrashBft.BM.res bool) :
+  (forall h, CrashBft.rel_res eq (f h) (g h)) ->
+  forall fuel i j, (N.to_nat (j - i) < fuel)%nat ->
+  CrashBft.rel_res eq (bsearch fuel f i j) (CrashBft.BM.bsearch fuel g i j).
+Proof. exact (CrashBft.bsearch_agree f g). Qed.
+
+Theorem find_checkpoint_is_find_cp s R qs t fin head : view s R qs -> D fin -> D head ->
+  CrashBft.rel_res (fun a b => b = tr a) (find_checkpoint c s t fin head) (CrashBft.BM.find_cp bc R qs t (tr fin) (tr head)).
+Proof. intros V. exact (CrashBft.find_agree c bc HcL tr D tr_num tr_lt sg cm master s R qs V t fin head). Qed.
+
+(* ONE IMPORT.  Node.processBlock on a store against Bft.Model.import on a node that refines it: the new store refines the
+   new node (same stored blocks, same best block, same finalized block, same quality records), the coupling is kept, and
+   the outcome classes agree (stored / known / parent missing / refused by Accepts; "too far ahead" is "parent missing") *)
+Theorem crash_import_is_bft_import s nd b : wf_cfg c -> refines s nd -> flags_ok s nd -> blk_ok s nd b ->
+  let s' := run1 c s b in
+  let r := CrashBft.BM.import true bc nd (ablk b) in
+  refines s' (fst r) /\ flags_ok s' (fst r) /\
+  CrashBft.bft_class (snd r) = CrashBft.crash_class (CrashBft.crash_code c s b) /\
+  CrashBft.BN.valid_child (CrashBft.BM.n_repo nd) (ablk b) /\
+  CrashBft.crash_code c s b <> 6 /\
+  CrashBft.BM.n_repo (fst r) = if CrashBft.crash_code c s b =? 0 then ablk b :: CrashBft.BM.n_repo nd else CrashBft.BM.n_repo nd.
+Proof. exact (CrashBft.import_sim c bc HcL tr D tr_num tr_lt sg cm master s nd b). Qed.
+
+(* RESTART of a store no import of which was cut = Bft.Model.restart (a crash image is covered by the resume theorems) *)
+Theorem crash_restart_is_bft_restart s nd : wf_cfg c -> refines s nd -> Qinv c s -> Hinv s ->
+  exists best, restart c true s = Some (s, best, finalized c s) /\
+    refines s (CrashBft.BM.restart nd) /\ CrashBft.BM.n_best (CrashBft.BM.restart nd) = tr best /\
+    CrashBft.BM.e_fin (CrashBft.BM.n_eng (CrashBft.BM.restart nd)) = tr (finalized c s).
+Proof. exact (CrashBft.restart_sim c tr D sg cm s nd). Qed.
+
+(* from a genesis store *)
+Section FromGenesis.
+Variable g : blk.
+Hypothesis Hc2 : wf_cfg2 c.
+Hypothesis Hg : c_g c = b_id g.
+Hypothesis Hk : b_skeep g = [].
+Hypothesis Hi : b_ikeep g = [].
+Hypothesis Hj : b_just g = false.
+Hypothesis Hcm : b_comm g = false.
+Hypothesis Hd : D (b_id g).
+Local Notation gnode := (CrashBft.gnode tr sg cm master g).
+
+(* the abstraction function along the uninterrupted run: abs of the store after the history refines it, satisfies the
+   coupling, and is the Bft node after the same imports (same repository list, best, finalized, same record under every id) *)
+Theorem abs_of_run_is_bft_run hist : hist_ok (genesis_store g) gnode hist ->
+  let s := run c (genesis_store g) hist in
+  let nd := bft_import_all gnode (map ablk hist) in
+  refines s (abs s) /\ flags_are_tallies s /\
+  CrashBft.BM.n_repo (abs s) = CrashBft.BM.n_repo nd /\ CrashBft.BM.n_best (abs s) = CrashBft.BM.n_best nd /\
+  CrashBft.BM.e_fin (CrashBft.BM.n_eng (abs s)) = CrashBft.BM.e_fin (CrashBft.BM.n_eng nd) /\
+  (forall i, D i -> CrashBft.BM.get_q (CrashBft.BM.e_qs (CrashBft.BM.n_eng (abs s))) (tr i) =
+                    CrashBft.BM.get_q (CrashBft.BM.e_qs (CrashBft.BM.n_eng nd)) (tr i)).
+Proof. exact (CrashBft.abs_of_run_is_bft_run c bc HcL tr D tr_num tr_lt sg cm master g Hc2 Hg Hk Hi Hj Hcm Hd hist). Qed.
+
+(* CRASH + RESTART + RESUME.  After a crash at ANY cut of ANY import, restart (with the F6 repair) and resumption of the
+   stream, the node is in the simulation relation with the Bft node that imported the same blocks without interruption:
+   "tallies and finalized after crash+restart+resume are those of the Bft model on the same stored set" *)
+Theorem resumed_node_is_bft_run hist k i :
+  wf_hist c (genesis_store g) hist -> cut_in_import c (genesis_store g) hist k i -> hist_ok (genesis_store g) gnode hist ->
+  let nd := bft_import_all gnode (map ablk hist) in
+  exists r, resume c true (crash c (genesis_store g) hist k) (skipn i hist) = Some r /\
+    sim r nd /\
+    (exists best, get_id r KBest = Some best /\ CrashBft.BM.n_best nd = tr best) /\
+    CrashBft.BM.e_fin (CrashBft.BM.n_eng nd) = tr (finalized c r) /\
+    (forall id, D id -> CrashBft.BT.known (CrashBft.BM.n_repo nd) (tr id) = stored r id) /\
+    (forall id, D id -> CrashBft.BM.get_q (CrashBft.BM.e_qs (CrashBft.BM.n_eng nd)) (tr id) = get_quality r id).
+Proof. exact (CrashBft.resumed_is_bft_run c bc HcL tr D tr_num tr_lt sg cm master g Hc2 Hg Hk Hi Hj Hcm Hd hist k i). Qed.
+
+(* C04 stored_quality_is_from_scratch, on every resumed node: the quality the node computes for a stored block from the
+   records it finds after the crash — and the record itself at a store point — is the quality recomputed from the
+   definitions (state_pure: no records, no caches) over the blocks it stores *)
+Theorem stored_quality_is_from_scratch_after_resume hist k i :
+  wf_hist c (genesis_store g) hist -> cut_in_import c (genesis_store g) hist k i -> hist_ok (genesis_store g) gnode hist ->
+  let nd := bft_import_all gnode (map ablk hist) in
+  exists r, resume c true (crash c (genesis_store g) hist k) (skipn i hist) = Some r /\
+    forall id sm, get_summary r id = Some sm ->
+      quality_of c r (s_parent sm) (num_of id) (s_just sm) =
+        Some (CrashBft.BC.quality_pure bc (CrashBft.BT.chain_of (CrashBft.BM.n_repo nd) (tr id))) /\
+      (is_storepoint (c_L c) (num_of id) = true ->
+       get_quality r id = CrashBft.BC.quality_pure bc (CrashBft.BT.chain_of (CrashBft.BM.n_repo nd) (tr id))).
+Proof. exact (CrashBft.resumed_quality_from_scratch c bc HcL tr D tr_num tr_lt sg cm master g Hc2 Hg Hk Hi Hj Hcm Hd hist k i). Qed.
+
+(* C03 finalized_monotone, on every resumed node: along the history every finalized value of the Bft node has its
+   predecessor on its chain (Bft.ProofsMonotone.monotone_from), these values are the crash model's finalized blocks after
+   each import, and the resumed node holds the last of them *)
+Theorem finalized_monotone_after_resume hist k i :
+  wf_hist c (genesis_store g) hist -> cut_in_import c (genesis_store g) hist k i -> hist_ok (genesis_store g) gnode hist ->
+  exists r, resume c true (crash c (genesis_store g) hist k) (skipn i hist) = Some r /\
+    CrashBft.BMo.monotone_from (tr (b_id g)) (CrashBft.BMo.fin_trace bc true gnode (map ablk hist)) /\
+    map snd (CrashBft.BMo.fin_trace bc true gnode (map ablk hist)) = map tr (CrashBft.cfin_trace c (genesis_store g) hist) /\
+    finalized c r = last (CrashBft.cfin_trace c (genesis_store g) hist) (b_id g).
+Proof. exact (CrashBft.resumed_finalized_monotone c bc HcL tr D tr_num tr_lt sg cm master g Hc2 Hg Hk Hi Hj Hcm Hd hist k i). Qed.
+
+(* C04 finalized_is_function_of_set / import_set_order_independent, on resumed nodes: two nodes run two histories (any
+   orders, duplicates, refused blocks) over a consistent block tree, each crashes at any cut, restarts and resumes; each
+   one's finalized block is fin_char of the set it stores, and if they hold the same blocks (same id, parent, total score)
+   they hold the same best block, the same finalized block and the same quality records *)
+Theorem finalized_is_function_of_set_after_resume U h1 k1 i1 h2 k2 i2 :
+  CrashBft.BO3.tree_consistent bc U -> In (ablk g) U ->
+  (forall b, In b h1 \/ In b h2 -> In (ablk b) U) ->
+  wf_hist c (genesis_store g) h1 -> cut_in_import c (genesis_store g) h1 k1 i1 -> hist_ok (genesis_store g) gnode h1 ->
+  wf_hist c (genesis_store g) h2 -> cut_in_import c (genesis_store g) h2 k2 i2 -> hist_ok (genesis_store g) gnode h2 ->
+  exists r1 r2,
+    resume c true (crash c (genesis_store g) h1 k1) (skipn i1 h1) = Some r1 /\
+    resume c true (crash c (genesis_store g) h2 k2) (skipn i2 h2) = Some r2 /\
+    CrashBft.BO.fin_char bc (CrashBft.BM.n_repo (bft_import_all gnode (map ablk h1))) (tr (finalized c r1)) /\
+    CrashBft.BO.fin_char bc (CrashBft.BM.n_repo (bft_import_all gnode (map ablk h2))) (tr (finalized c r2)) /\
+    ((forall id, option_map (asum id) (get_summary r1 id) = option_map (asum id) (get_summary r2 id)) ->
+     get_id r1 KBest = get_id r2 KBest /\ finalized c r1 = finalized c r2 /\
+     (forall id, stored r1 id = true -> is_storepoint (c_L c) (num_of id) = true -> get_quality r1 id = get_quality r2 id)).
+Proof.
+  exact (CrashBft.resumed_function_of_set c bc HcL tr D tr_num tr_lt sg cm master g Hc2 Hg Hk Hi Hj Hcm Hd U h1 k1 i1 h2 k2 i2).
+Qed.
+End FromGenesis.
+End Composition.
+
+(* the premises of hist_ok stated once for a history: ids in the domain and numbered after their parents, Crash's trie-layer
+   premise wf_hist, and the coupling along the Bft run *)
+Theorem bridge_premises_from_static_ones c bc tr D sg cm l s nd :
+  CrashBft.ids_ok D l -> wf_hist c s l -> CrashBft.flags_hist bc tr sg cm nd l -> CrashBft.hist_ok c bc tr D sg cm s nd l.
+Proof. exact (CrashBft.hist_ok_intro c bc tr D sg cm l s nd). Qed.
+
+(* non-vacuity: an id translation exists on ids with small low bits ... *)
+Example id_bridge_instance :
+  (forall a, CrashBft.small a -> CrashBft.BT.idnum (CrashBft.tr_small a) = num_of a) /\
+  (forall a b, CrashBft.small a -> CrashBft.small b -> (CrashBft.tr_small a <? CrashBft.tr_small b) = (a <? b)).
+Proof. exact (conj CrashBft.tr_small_num CrashBft.tr_small_lt). Qed.
+
+(* ... every hypothesis of the theorems above holds of the example history (one signer, COM votes, one proposer slot) ... *)
+Example bridge_hypotheses_met :
+  CrashBft.BM.c_L CrashBftExamples.xbc = c_L ex_cfg /\
+  (forall a, CrashBft.small a -> CrashBft.BT.idnum (CrashBft.tr_small a) = num_of a) /\
+  (forall a b, CrashBft.small a -> CrashBft.small b -> (CrashBft.tr_small a <? CrashBft.tr_small b) = (a <? b)) /\
+  wf_cfg2 ex_cfg /\ c_g ex_cfg = b_id ex_gen /\ b_skeep ex_gen = [] /\ b_ikeep ex_gen = [] /\
+  b_just ex_gen = false /\ b_comm ex_gen = false /\ CrashBft.small (b_id ex_gen) /\
+  wf_hist ex_cfg ex_s0 ex_hist /\
+  CrashBft.hist_ok ex_cfg CrashBftExamples.xbc CrashBft.tr_small CrashBft.small CrashBftExamples.xsg CrashBftExamples.xcm
+                   ex_s0 CrashBftExamples.xnode ex_hist.
+Proof. exact CrashBftExamples.ex_bridge_hypotheses. Qed.
+
+(* ... the coupling is CHECKED (vm_compute of the Bft tally against the stored flags) for the genesis store, the store after
+   the history and the store resumed after the F6 cut ... *)
+Example flags_are_tallies_on_example :
+  CrashBft.flags_are_tallies ex_cfg CrashBftExamples.xbc CrashBft.tr_small CrashBftExamples.xsg CrashBftExamples.xcm
+                             CrashBftExamples.xmaster ex_s0 /\
+  CrashBft.flags_are_tallies ex_cfg CrashBftExamples.xbc CrashBft.tr_small CrashBftExamples.xsg CrashBftExamples.xcm
+                             CrashBftExamples.xmaster (run ex_cfg ex_s0 ex_hist) /\
+  match resume ex_cfg true (crash ex_cfg ex_s0 ex_hist f6_cut) (skipn 2 ex_hist) with
+  | Some r => CrashBft.flags_are_tallies ex_cfg CrashBftExamples.xbc CrashBft.tr_small CrashBftExamples.xsg CrashBftExamples.xcm
+                                         CrashBftExamples.xmaster r
+  | None => False
+  end.
+Proof. exact CrashBftExamples.ex_flags_are_tallies. Qed.
+
+(* ... the abstraction of the final store is the Bft node after the seven imports (best = block 7, finalized = block 4,
+   quality records 1 2 3 4), the store resumed after the F6 cut abstracts to the same node, and the example tree is consistent *)
+Example abs_on_example :
+  CrashBft.BM.n_repo (CrashBftExamples.xabs (run ex_cfg ex_s0 ex_hist)) = CrashBft.BM.n_repo CrashBftExamples.xrun /\
+  CrashBft.BM.n_best (CrashBftExamples.xabs (run ex_cfg ex_s0 ex_hist)) = CrashBft.BM.n_best CrashBftExamples.xrun /\
+  CrashBft.BM.e_fin (CrashBft.BM.n_eng (CrashBftExamples.xabs (run ex_cfg ex_s0 ex_hist))) =
+    CrashBft.BM.e_fin (CrashBft.BM.n_eng CrashBftExamples.xrun) /\
+  length (CrashBft.BM.n_repo CrashBftExamples.xrun) = 8%nat /\
+  CrashBft.BM.n_best CrashBftExamples.xrun = CrashBft.tr_small (bid 7 7) /\
+  CrashBft.BM.e_fin (CrashBft.BM.n_eng CrashBftExamples.xrun) = CrashBft.tr_small (bid 4 4) /\
+  map (fun k => CrashBft.BM.get_q (CrashBft.BM.e_qs (CrashBft.BM.n_eng CrashBftExamples.xrun)) (CrashBft.tr_small (bid k k))) [1; 3; 5; 7]
+    = [1; 2; 3; 4] /\
+  map (fun k => get_quality (run ex_cfg ex_s0 ex_hist) (bid k k)) [1; 3; 5; 7] = [1; 2; 3; 4].
+Proof. exact CrashBftExamples.ex_abs_is_bft_run. Qed.
+
+Example resumed_abs_on_example :
+  cut_in_import ex_cfg ex_s0 ex_hist f6_cut 2 /\
+  option_map (fun r => (CrashBft.BM.n_repo (CrashBftExamples.xabs r), CrashBft.BM.n_best (CrashBftExamples.xabs r),
+                        CrashBft.BM.e_fin (CrashBft.BM.n_eng (CrashBftExamples.xabs r))))
+    (resume ex_cfg true (crash ex_cfg ex_s0 ex_hist f6_cut) (skipn 2 ex_hist)) =
+  Some (CrashBft.BM.n_repo CrashBftExamples.xrun, CrashBft.BM.n_best CrashBftExamples.xrun,
+        CrashBft.BM.e_fin (CrashBft.BM.n_eng CrashBftExamples.xrun)).
+Proof. exact CrashBftExamples.ex_resumed_abs. Qed.
+
+Example consistent_tree_on_example :
+  CrashBft.BO3.tree_consistent CrashBftExamples.xbc (CrashBft.BM.n_repo CrashBftExamples.xrun) /\
+  In (CrashBft.ablk CrashBft.tr_small CrashBftExamples.xsg CrashBftExamples.xcm ex_gen) (CrashBft.BM.n_repo CrashBftExamples.xrun) /\
+  (forall b, In b ex_hist ->
+     In (CrashBft.ablk CrashBft.tr_small CrashBftExamples.xsg CrashBftExamples.xcm b) (CrashBft.BM.n_repo CrashBftExamples.xrun)).
+Proof. exact CrashBftExamples.ex_tree. Qed.
+
 Print Assumptions import_keeps_visible_complete.
 Print Assumptions every_cut_satisfies_invariant.
 Print Assumptions crash_consistent.
@@ -371,3 +602,21 @@ Print Assumptions genesis_store_inv3.
 Print Assumptions orphan_exists_in_example.
 Print Assumptions hypotheses_met.
 Print Assumptions history_not_trivial.
+Print Assumptions ancestor_walk_is_block_at.
+Print Assumptions quality_of_is_compute_state.
+Print Assumptions search_definitions_agree.
+Print Assumptions find_checkpoint_is_find_cp.
+Print Assumptions crash_import_is_bft_import.
+Print Assumptions crash_restart_is_bft_restart.
+Print Assumptions abs_of_run_is_bft_run.
+Print Assumptions resumed_node_is_bft_run.
+Print Assumptions stored_quality_is_from_scratch_after_resume.
+Print Assumptions finalized_monotone_after_resume.
+Print Assumptions finalized_is_function_of_set_after_resume.
+Print Assumptions bridge_premises_from_static_ones.
+Print Assumptions id_bridge_instance.
+Print Assumptions bridge_hypotheses_met.
+Print Assumptions flags_are_tallies_on_example.
+Print Assumptions abs_on_example.
+Print Assumptions resumed_abs_on_example.
+Print Assumptions consistent_tree_on_example.
